@@ -80,9 +80,13 @@ pub trait TimeZoneProvider {
 
 pub struct NeverProvider;
 
+fn never_provider_error() -> crate::TemporalError {
+    crate::TemporalError::general("NeverProvider has no time zone data.")
+}
+
 impl TimeZoneProvider for NeverProvider {
     fn check_identifier(&self, _: &str) -> bool {
-        unimplemented!()
+        false
     }
 
     fn get_named_tz_epoch_nanoseconds(
@@ -90,11 +94,11 @@ impl TimeZoneProvider for NeverProvider {
         _: &str,
         _: IsoDateTime,
     ) -> TemporalResult<Vec<EpochNanoseconds>> {
-        unimplemented!()
+        Err(never_provider_error())
     }
 
     fn get_named_tz_offset_nanoseconds(&self, _: &str, _: i128) -> TemporalResult<TimeZoneOffset> {
-        unimplemented!()
+        Err(never_provider_error())
     }
 
     fn get_named_tz_transition(
@@ -103,6 +107,6 @@ impl TimeZoneProvider for NeverProvider {
         _: i128,
         _: TransitionDirection,
     ) -> TemporalResult<Option<EpochNanoseconds>> {
-        unimplemented!()
+        Err(never_provider_error())
     }
 }
